@@ -357,6 +357,122 @@ fn replay_mc(out: &mut Out, path: &str) {
     }
 }
 
+const BYTES_B: [u8; 28] = [
+    0, 1, 2, 7, 8, 9, 0x0A, 0x0F, 0x10, 0x19, 0x1F, 0x20, 0x3F, 0x40, 0x66, 0x7E, 0x7F, 0x80, 0x81, 0x90, 0x99, 0x9A, 0xA0, 0xF0, 0xFA, 0xFE, 0xFF, 0x55,
+];
+const WORDS_B: [u16; 20] = [
+    0, 1, 0xFF, 0x100, 0x7FF, 0x800, 0xFFF, 0x1000, 0x3FFF, 0x4000, 0x7FFF, 0x8000, 0x8001, 0xEFFF, 0xF000, 0xF001, 0xFFFE, 0xFFFF, 0x1234, 0xA5A5,
+];
+
+/// C01: exhaustive sweeps of the small operand domains (every accumulator value x the flags an instruction
+/// reads; boundary pairs - or, with `full`, every pair - for two-operand arithmetic). Everything else random.
+fn sweeps(out: &mut Out, r: &mut Rng, full: bool, part: u64, parts: u64) {
+    let mut n = 0u64;
+    let mut one = |r: &mut Rng, out: &mut Out, page: usize, op: u8, tag: &str, f: &dyn Fn(&mut CpuInit, &mut RecBus)| {
+        n += 1;
+        if n % parts != part {
+            return;
+        }
+        let mut cpu = Z80::default();
+        let mut init = CpuInit::random(r);
+        let mut bus = RecBus::new(r.below(1 << 20) as u32);
+        f(&mut init, &mut bus);
+        init.apply(&mut cpu);
+        place_instruction(&mut bus, r, init.pc, page, op, 99);
+        record_step(&mut cpu, &mut bus, out, &format!("{}{:02X}/{}", PAGES[page], op, tag));
+    };
+    // flags an instruction can read: C, N, H (bits 0, 1, 4); the others random; Q equal to F or zero
+    let flag_sets: Vec<u8> = (0..8u8).map(|k| (k & 1) | ((k & 2) << 0) | ((k & 4) << 2)).collect();
+    for a in 0..=255u8 {
+        for &fl in &flag_sets {
+            for (page, op) in [(0usize, 0x27u8), (0, 0x2F), (0, 0x37), (0, 0x3F), (0, 0x07), (0, 0x0F), (0, 0x17), (0, 0x1F), (2, 0x44)] {
+                // SCF/CCF depend on Q: both settings
+                let qsame = (a as u32 + fl as u32) % 2 == 0;
+                one(r, out, page, op, "acc", &|i, _| {
+                    let f = (i.af as u8 & 0xEC) | fl;
+                    i.af = (a as u16) << 8 | f as u16;
+                    i.q = if qsame { f } else { 0 };
+                });
+            }
+        }
+        for c in 0..2u8 {
+            // INC/DEC B, the CB page on B (rotates, shifts, BIT)
+            for op in [0x04u8, 0x05] {
+                one(r, out, 0, op, "incdec", &|i, _| {
+                    i.bc = (a as u16) << 8 | (i.bc & 0xFF);
+                    i.af = (i.af & 0xFFFE) | c as u16;
+                });
+            }
+            for op in (0x00..0x80u8).step_by(8) {
+                one(r, out, 1, op, "cb", &|i, _| {
+                    i.bc = (a as u16) << 8 | (i.bc & 0xFF);
+                    i.af = (i.af & 0xFFFE) | c as u16;
+                });
+            }
+        }
+    }
+    // two-operand 8-bit arithmetic: A op B, A op (HL), A op n
+    let all: Vec<u8> = (0..=255u8).collect();
+    let bytes: &[u8] = if full { &all } else { &BYTES_B };
+    for &a in bytes {
+        for &b in bytes {
+            for c in 0..2u16 {
+                for op in (0x80..0xC0u8).step_by(8) {
+                    if c == 1 && !matches!(op, 0x88 | 0x98) {
+                        continue; // only ADC and SBC read the carry
+                    }
+                    one(r, out, 0, op, "alu", &|i, _| {
+                        i.af = (a as u16) << 8 | (i.af & 0xFE) | c;
+                        i.bc = (b as u16) << 8 | (i.bc & 0xFF);
+                    });
+                }
+            }
+        }
+    }
+    for &a in &BYTES_B {
+        for &b in &BYTES_B {
+            for c in 0..2u16 {
+                // RLD, RRD, CPI, CPD on (HL) = b
+                for op in [0x6Fu8, 0x67, 0xA1, 0xA9, 0xB1, 0xB9] {
+                    one(r, out, 2, op, "hl", &|i, bus| {
+                        i.af = (a as u16) << 8 | (i.af & 0xFE) | c;
+                        if i.pc.wrapping_sub(i.hl) < 4 || i.hl.wrapping_sub(i.pc) < 4 {
+                            i.hl = i.pc.wrapping_add(0x1000);
+                        }
+                        bus.mem.insert(i.hl, b);
+                    });
+                }
+            }
+            // INI / OUTI family: flags depend on the transferred byte, B and C/L
+            for op in [0xA2u8, 0xA3, 0xAA, 0xAB, 0xB2, 0xB3, 0xBA, 0xBB] {
+                one(r, out, 2, op, "io", &|i, bus| {
+                    i.bc = (a as u16) << 8 | (i.bc & 0xFF);
+                    if i.pc.wrapping_sub(i.hl) < 4 || i.hl.wrapping_sub(i.pc) < 4 {
+                        i.hl = i.pc.wrapping_add(0x1000);
+                    }
+                    bus.mem.insert(i.hl, b);
+                    bus.io.insert(i.bc, b);
+                });
+            }
+        }
+    }
+    // 16-bit arithmetic
+    for &x in &WORDS_B {
+        for &y in &WORDS_B {
+            for c in 0..2u16 {
+                for (page, op) in [(0usize, 0x09u8), (2, 0x4A), (2, 0x42), (3, 0x09), (0, 0x29), (2, 0x6A), (2, 0x62)] {
+                    one(r, out, page, op, "w", &|i, _| {
+                        i.hl = x;
+                        i.ix = x;
+                        i.bc = y;
+                        i.af = (i.af & 0xFFFE) | c;
+                    });
+                }
+            }
+        }
+    }
+}
+
 pub fn run(args: &Args) {
     let mut out = Out::create(&args.str("out", "-"));
     let rp = args.str("replaymc", "");
@@ -374,6 +490,9 @@ pub fn run(args: &Args) {
     let only_page = args.num("page", 99) as usize;
     if args.num("matrix", 0) != 0 {
         matrix(&mut out, &mut r, chain);
+    }
+    if args.num("sweeps", 0) != 0 {
+        sweeps(&mut out, &mut r, args.num("sweeps", 0) == 2, args.num("part", 0), args.num("parts", 1).max(1));
     }
 
     for round in 0..per {
